@@ -132,6 +132,10 @@ func (f *FileOutputHandler) Load(
 		reader = progress.WrapReader(contentReader)
 	}
 
+	// The parent directory may not exist yet (fresh checkout, deleted output directory)
+	if err := os.MkdirAll(filepath.Dir(absOutputPath), 0755); err != nil {
+		return err
+	}
 	outputFile, err := os.Create(absOutputPath)
 	if err != nil {
 		return err
